@@ -67,6 +67,12 @@ def generate(rs: int, tier: str, index: int) -> dict:
         step["mutate"] = True  # history on the same object: query, overwrite the coefficients in place, query again
     if ch.chance(0.25):
         step["scribble"] = True
+    ctiny = ch.sub("tiny")
+    if kindc == "float" and ctiny.chance(0.12):
+        # non-constant terms with tiny coefficients (1e-9 ... subnormal): small is not zero
+        for e, col in zip(lit["exponents"], lit["coefficients"]):
+            if sum(e):
+                col[:] = [(v and ctiny.choice([1e-9, -1e-12, 1e-30, 5e-324])) for v in col]
     if ch.sub("npflags").chance(0.15):
         step["np_flags"] = True
     if ch.sub("results").chance(0.25):
